@@ -613,7 +613,14 @@ impl Gen<'_> {
   fn tparams(&mut self) -> String {
     match self.rng.below(4) {
       0 => format!("<{}>", self.upper()),
-      1 => format!("<{}, {}: {}<{}>>", self.upper(), self.upper(), self.class_ref(), self.ty(0)),
+      1 => match self.rng.below(3) {
+        0 => format!("<{}, {}: {}<{}>>", self.upper(), self.upper(), self.class_ref(), self.ty(0)),
+        1 => format!("<{}: {}>", self.upper(), self.class_ref()),
+        _ => {
+          let t = self.upper();
+          format!("<{t}: {}<{t}>, {}>", self.class_ref(), self.upper())
+        }
+      },
       _ => String::new(),
     }
   }
@@ -1296,7 +1303,8 @@ pub fn analyze(id: &str, main: &str, origin: &str, layout: &str, text: &str, opt
     let st = &state;
     match guarded(|| samlang_services::query::hover(st, &sm, *p)) {
       Ok(Some(h)) => {
-        let mut r = svc_row(&st.heap, "hover", &h.location, "");
+        // the hovered range of a query placed on a name is that name
+        let mut r = svc_row(&st.heap, "hover", &h.location, qname);
         r.as_array_mut().unwrap().push(at.clone());
         svc.push(r);
         bump("hover", 1);
